@@ -833,3 +833,36 @@ Lemma no_stale_record h p :
 Proof. intros He Hr. apply (I_idle _ _ _ (inv_of_exclusive h He Hr)). Qed.
 
 End AcceptProofs.
+
+(* ---------------------------------------------------------------------------------------------- *)
+(* Tie to the request-path model of C01 (Model/Server.v)                                            *)
+(* ---------------------------------------------------------------------------------------------- *)
+From GPA Require Import Server ServerProofs.
+
+(* the TcpConnectionContext derived from what the Lookup step found *)
+Definition server_ctx (os : os_view) (x : option audit_entry) : conn_ctx :=
+  match x with Some e => Server.ctx_of os e | None => ctx_none end.
+
+(* Server.accept (C01's one-step view of TcpConnectionContext::new) is exactly the two steps run
+   back to back: same context, same map afterwards; fail_remove = the remove step failing *)
+Lemma two_step_is_server_accept (os : os_view) (m : audit_map) (p c : N) (ok : bool) :
+  let s' := final (Q := unit) {| audit := m; conns := [] |} [Lookup c p; Remove c ok] in
+  option_map (server_ctx os) (ctx_in s' c) = Some (fst (accept os (negb ok) m p)) /\
+  audit s' = snd (accept os (negb ok) m p).
+Proof.
+  cbn zeta. rewrite final_cons. rewrite step_lookup_new by reflexivity.
+  rewrite final_cons. cbn [step]. rewrite conn_of_mk, acc_lookup_insert_same.
+  cbn [cs_pending cs_port audit]. unfold accept.
+  destruct (alookup N.eqb p m) as [e|] eqn:L; cbn [is_some].
+  - cbn [fst final run]. unfold ctx_in. rewrite conn_of_mk, acc_lookup_insert_same.
+    cbn [set_pending cs_ctx option_map server_ctx audit fst snd].
+    destruct ok; cbn [negb]; split; reflexivity.
+  - cbn [fst final run]. unfold ctx_in. rewrite conn_of_mk, acc_lookup_insert_same.
+    cbn [cs_ctx option_map server_ctx audit fst snd]. split; reflexivity.
+Qed.
+
+(* an unattributed context is refused with 421 by the request handler, and nothing is relayed *)
+Lemma unattributed_is_421 (os : os_view) (e : env) (r : request) :
+  e_counter_ok e = true -> has_traversal r = false -> is_provision r = false ->
+  refused_with (handle e (server_ctx os None) r) 421.
+Proof. intros. apply case_direct; auto. Qed.
